@@ -443,6 +443,183 @@ def gen_pad():
     return _write(os.path.join(GEN, 'Pad.lean'), '\n'.join(out))
 
 
+
+# ---------------------------------------------------------------------------
+# size arithmetic of the filter banks -> Lean (Gen/Sizes.lean)
+# ---------------------------------------------------------------------------
+
+class SizeTranslator(FnTranslator):
+    """integer expressions of a function body with tensor sizes renamed: `alias` maps the source text of a sub-expression
+    (ast.unparse) to a Lean variable, e.g. 'x.shape[dim]' -> 'N'"""
+
+    def __init__(self, fn, alias):
+        self.fn = fn
+        self.alias = alias
+
+    def expr(self, e):
+        txt = ast.unparse(e)
+        if txt in self.alias:
+            return self.alias[txt]
+        if isinstance(e, (ast.Subscript, ast.Attribute, ast.Call)):
+            raise TranslateError('size expression %s is not an integer expression over the known sizes' % txt)
+        return FnTranslator.expr(self, e)
+
+
+def _walk_stmts(body):
+    for st in body:
+        yield st
+        for fld in ('body', 'orelse'):
+            sub = getattr(st, fld, None)
+            if isinstance(sub, list):
+                yield from _walk_stmts(sub)
+
+
+def _assign_value(fn, var, nth=0):
+    k = 0
+    for st in _walk_stmts(fn.body):
+        if isinstance(st, ast.Assign) and len(st.targets) == 1 and isinstance(st.targets[0], ast.Name) and st.targets[0].id == var:
+            if k == nth:
+                return st.value
+            k += 1
+    raise TranslateError('assignment #%d to %s not found in %s' % (nth, var, fn.name))
+
+
+def _if_test(fn, containing, nth=0):
+    k = 0
+    for st in _walk_stmts(fn.body):
+        if isinstance(st, ast.If) and containing in ast.unparse(st.test):
+            if k == nth:
+                return st.test
+            k += 1
+    raise TranslateError('if-test containing %r not found in %s' % (containing, fn.name))
+
+
+def _call_arg(fn, fname, idx, nth=0):
+    k = 0
+    for node in ast.walk(fn):
+        if isinstance(node, ast.Call) and ast.unparse(node.func) == fname:
+            if k == nth:
+                return node.args[idx]
+            k += 1
+    raise TranslateError('call #%d of %s not found in %s' % (nth, fname, fn.name))
+
+
+def _ifexp_tuple(e, branch, idx):
+    """element `idx` of the tuple in the `body`/`orelse` branch of `a if c else b`"""
+    if not isinstance(e, ast.IfExp):
+        raise TranslateError('expected a conditional expression, got %s' % ast.unparse(e))
+    t = e.body if branch == 'body' else e.orelse
+    if not isinstance(t, ast.Tuple):
+        raise TranslateError('expected a tuple in %s' % ast.unparse(e))
+    return t.elts[idx]
+
+
+def _fold_stmt(fn, var, nth=0):
+    """the in-place wrap-around fold  v[..., :a] = v[..., :a] + v[..., b:c]  ->  (a, b, c)"""
+    k = 0
+    for st in _walk_stmts(fn.body):
+        if (isinstance(st, ast.Assign) and len(st.targets) == 1 and isinstance(st.targets[0], ast.Subscript)
+                and ast.unparse(st.targets[0].value) == var and isinstance(st.value, ast.BinOp) and isinstance(st.value.op, ast.Add)):
+            tgt, lhs, rhs = st.targets[0], st.value.left, st.value.right
+            if ast.unparse(tgt) != ast.unparse(lhs) or not isinstance(rhs, ast.Subscript) or ast.unparse(rhs.value) != var:
+                raise TranslateError('fold statement of %s has an unexpected form: %s' % (var, ast.unparse(st)))
+            def last_slice(sub):
+                sl = sub.slice.elts[-1] if isinstance(sub.slice, ast.Tuple) else sub.slice
+                if not isinstance(sl, ast.Slice) or sl.step is not None:
+                    raise TranslateError('unexpected slice in %s' % ast.unparse(sub))
+                return sl
+            a, b = last_slice(tgt), last_slice(rhs)
+            if a.lower is not None or a.upper is None or b.lower is None or b.upper is None:
+                raise TranslateError('unexpected fold bounds in %s' % ast.unparse(st))
+            if k == nth:
+                return a.upper, b.lower, b.upper
+            k += 1
+    raise TranslateError('fold statement #%d of %s not found in %s' % (nth, var, fn.name))
+
+
+def _crop_upper(fn, var, nth=0):
+    """v = v[..., :n]  ->  n"""
+    k = 0
+    for st in _walk_stmts(fn.body):
+        if (isinstance(st, ast.Assign) and len(st.targets) == 1 and isinstance(st.targets[0], ast.Name) and st.targets[0].id == var
+                and isinstance(st.value, ast.Subscript) and ast.unparse(st.value.value) == var):
+            sl = st.value.slice.elts[-1] if isinstance(st.value.slice, ast.Tuple) else st.value.slice
+            if isinstance(sl, ast.Slice) and sl.lower is None and sl.upper is not None and sl.step is None:
+                if k == nth:
+                    return sl.upper
+                k += 1
+    raise TranslateError('crop #%d of %s not found in %s' % (nth, var, fn.name))
+
+
+def _find_method(path, cls, name):
+    tree = ast.parse(open(path).read())
+    for n in tree.body:
+        if isinstance(n, ast.ClassDef) and n.name == cls:
+            for m in n.body:
+                if isinstance(m, ast.FunctionDef) and m.name == name:
+                    return m
+    raise TranslateError('%s.%s not found in %s' % (cls, name, path))
+
+
+def gen_sizes():
+    """the integer size arithmetic of afb1d / sfb1d (dwt/lowlevel.py), ScatLayerj2.forward (scatternet/layers.py) and
+    DTCWTForward.forward (dtcwt/transform2d.py), expression by expression, as Lean functions over Int"""
+    low = os.path.join(rt.REPO, 'pytorch_wavelets', 'dwt', 'lowlevel.py')
+    out = ['/- GENERATED on every run by harness/translate.py from the size arithmetic of', '   dwt/lowlevel.py (afb1d, sfb1d), scatternet/layers.py (ScatLayerj2.forward), dtcwt/transform2d.py (DTCWTForward.forward)',
+           '   — do not edit. -/', 'namespace WV.Gen.Sizes', '']
+
+    def d(name, params, body, prop=False):
+        out.append('def %s %s : %s := %s' % (name, ' '.join('(%s : Int)' % p_ for p_ in params), 'Prop' if prop else 'Int', body))
+
+    fa = _find_fn(low, 'afb1d')
+    t = SizeTranslator(fa, {'x.shape[dim]': 'N', 'x.shape[d]': 'N'})
+    d('afb1d_L2', ['L'], t.expr(_assign_value(fa, 'L2')))
+    d('afb1d_per_odd', ['N'], t.expr(_if_test(fa, 'x.shape[dim] % 2')), prop=True)
+    d('afb1d_per_shift', ['L2'], t.expr(_call_arg(fa, 'roll', 1)))
+    padv = _assign_value(fa, 'pad', 0)
+    d('afb1d_per_pad_H', ['L'], t.expr(_ifexp_tuple(padv, 'body', 0)))
+    d('afb1d_per_pad_W', ['L'], t.expr(_ifexp_tuple(padv, 'orelse', 1)))
+    d('afb1d_per_N2', ['N'], t.expr(_assign_value(fa, 'N2')))
+    for k, tag in ((0, 'H'), (1, 'W')):
+        a, b, c = _fold_stmt(fa, 'lohi', k)
+        d('afb1d_per_fold_width_' + tag, ['L2', 'N2'], t.expr(a)); d('afb1d_per_fold_from_' + tag, ['L2', 'N2'], t.expr(b)); d('afb1d_per_fold_to_' + tag, ['L2', 'N2'], t.expr(c))
+        d('afb1d_per_crop_' + tag, ['N2'], t.expr(_crop_upper(fa, 'lohi', k)))
+    d('afb1d_p', ['outsize', 'N', 'L'], t.expr(_assign_value(fa, 'p')))
+    d('afb1d_zero_extra', ['p'], t.expr(_if_test(fa, 'p % 2')), prop=True)
+    padz = _assign_value(fa, 'pad', 2)
+    d('afb1d_zero_pad_H', ['p'], t.expr(_ifexp_tuple(padz, 'body', 0))); d('afb1d_zero_pad_W', ['p'], t.expr(_ifexp_tuple(padz, 'orelse', 1)))
+    pads = _assign_value(fa, 'pad', 3)
+    d('afb1d_ext_before_H', ['p'], t.expr(_ifexp_tuple(pads, 'body', 2))); d('afb1d_ext_after_H', ['p'], t.expr(_ifexp_tuple(pads, 'body', 3)))
+    d('afb1d_ext_before_W', ['p'], t.expr(_ifexp_tuple(pads, 'orelse', 0))); d('afb1d_ext_after_W', ['p'], t.expr(_ifexp_tuple(pads, 'orelse', 1)))
+
+    fs = _find_fn(low, 'sfb1d')
+    t = SizeTranslator(fs, {'lo.shape[d]': 'n'})
+    d('sfb1d_N', ['n'], t.expr(_assign_value(fs, 'N')))
+    for k, tag in ((0, 'H'), (1, 'W')):
+        a, b, c = _fold_stmt(fs, 'y', k)
+        d('sfb1d_per_fold_width_' + tag, ['L', 'N'], t.expr(a)); d('sfb1d_per_fold_from_' + tag, ['L', 'N'], t.expr(b)); d('sfb1d_per_fold_to_' + tag, ['L', 'N'], t.expr(c))
+        d('sfb1d_per_crop_' + tag, ['N'], t.expr(_crop_upper(fs, 'y', k)))
+    d('sfb1d_per_shift', ['L'], t.expr(_call_arg(fs, 'roll', 1)))
+    padt = _assign_value(fs, 'pad', 0)
+    d('sfb1d_pad_H', ['L'], t.expr(_ifexp_tuple(padt, 'body', 0))); d('sfb1d_pad_W', ['L'], t.expr(_ifexp_tuple(padt, 'orelse', 1)))
+
+    fj = _find_method(os.path.join(rt.REPO, 'pytorch_wavelets', 'scatternet', 'layers.py'), 'ScatLayerj2', 'forward')
+    t = SizeTranslator(fj, {})
+    d('scatj2_rem_rows', ['r'], t.expr(_assign_value(fj, 'rem', 0))); d('scatj2_rem_cols', ['c'], t.expr(_assign_value(fj, 'rem', 1)))
+    d('scatj2_extend', ['rem'], t.expr(_if_test(fj, 'rem', 0)), prop=True)
+    d('scatj2_rows_after', ['rem'], t.expr(_assign_value(fj, 'rows_after'))); d('scatj2_rows_before', ['rem'], t.expr(_assign_value(fj, 'rows_before')))
+    d('scatj2_cols_after', ['rem'], t.expr(_assign_value(fj, 'cols_after'))); d('scatj2_cols_before', ['rem'], t.expr(_assign_value(fj, 'cols_before')))
+
+    ff = _find_method(os.path.join(rt.REPO, 'pytorch_wavelets', 'dtcwt', 'transform2d.py'), 'DTCWTForward', 'forward')
+    t = SizeTranslator(ff, {})
+    d('dtcwt_fwd_rows_odd', ['r'], t.expr(_if_test(ff, 'r % 2')), prop=True); d('dtcwt_fwd_cols_odd', ['c'], t.expr(_if_test(ff, 'c % 2')), prop=True)
+    d('dtcwt_fwd_rows_pad4', ['r'], t.expr(_if_test(ff, 'r % 4')), prop=True); d('dtcwt_fwd_cols_pad4', ['c'], t.expr(_if_test(ff, 'c % 4')), prop=True)
+    out.append('\nend WV.Gen.Sizes\n')
+    return _write(os.path.join(GEN, 'Sizes.lean'), '\n'.join(out))
+
+
+SIZE_PROPS = {'C01', 'C10', 'C08', 'C03'}     # the properties whose theorem lists include the size-arithmetic tie (C01Z)
+
 PAD_PROPS = {'C01', 'C03', 'C04', 'C11'}      # the properties whose theorem lists include the padding-helper tie (C03T)
 
 
@@ -456,6 +633,11 @@ def regen_all(prop=None):
         # a helper the translator cannot follow is a broken obligation of the properties that rest on the tie theorems;
         # the others keep the last generated file (they do not import it)
         if prop is None or prop in PAD_PROPS:
+            raise
+    try:
+        gen_sizes()
+    except TranslateError:
+        if prop is None or prop in SIZE_PROPS:
             raise
 
 
